@@ -10,8 +10,9 @@ from dataclasses import dataclass, field
 
 from .tlc import VERIF, McResult
 
-EVIDENCE_DIR = os.path.join(VERIF, 'evidence')
-REPLAY_DIR = os.path.join(VERIF, 'replays')
+# (overridable so that sensitivity runs against scratch copies do not overwrite the committed evidence)
+EVIDENCE_DIR = os.environ.get('VERIF_EVIDENCE_DIR') or os.path.join(VERIF, 'evidence')
+REPLAY_DIR = os.environ.get('VERIF_REPLAY_DIR') or os.path.join(VERIF, 'replays')
 FINDINGS_FILE = os.path.join(VERIF, 'known_findings.json')
 
 
